@@ -63,6 +63,13 @@ def gen_history(rng, tier, j):
         t['v'] = [(3.0 if g == 'MAX' else -3.0) for g in goals]
       if safety and rng.random() < 0.85:
         t['s'] = float(rng.randint(0, 2))
+    if k == 'extra':
+      # the unconfigured metric may itself be not-a-number / infinite (a diverged
+      # auxiliary loss): it must not disqualify a trial that reports every
+      # configured metric as a number. 'extra' trials also get tempting values.
+      t['zz'] = rng.choice(['7.0', 'nan', 'nan', 'inf', '-inf', '0.0'])
+      if rng.random() < 0.5:
+        t['v'] = [(3.0 if g == 'MAX' else -3.0) for g in goals]
     if k == 'missing':
       drop = rng.sample(range(n_obj), rng.randint(1, max(1, n_obj - 1)))
       for d in drop:
@@ -200,7 +207,7 @@ def _metrics(t):
   if t['s'] is not None:
     m['s'] = float(t['s'])
   if t['k'] == 'extra' or (t['k'] == 'missing' and not m):
-    m['zz'] = 7.0
+    m['zz'] = float(t.get('zz', '7.0'))
   return m
 
 
